@@ -200,6 +200,53 @@ theorem neg_conditional_multiline :
     (∀ bits ∈ [[0, 1], [1, 0]], condOK "CY" 1 bits = false) ∧ condOK "CCZ" 1 [0, 1, 2] = false :=
   ⟨cy_conditional_fails, ccz_conditional_fails⟩
 
+
+/-! ## Per-gate semantic obligations: parametrised translations, for ALL angles (abstract trigonometric context)
+
+`α` is any commutative ring with `Amp α P`, `LawfulAmp α P` (ℂ with the real cosine and sine is a model).
+Proved: the native `rx ry rz` lines; `U1 ↦ rz` up to `e^{-iλ/2}`; `CU1 ↦ cr` exactly; the `CRY` and `CRX` templates on the
+two blocks of the control qubit; what the `CCRZ` template builds on the doubly-controlled block (`U1`, not `RZ`).
+NOT proved (checked numerically by (B) on every run only): the assembled 4×4 / 8×8 statements for `CRX CRY CU3 CCRX CCRY`,
+`U2`/`U3` (whose text is malformed anyway), `CSdg`/`CTdg` (decimal literals of π/2, π/4). -/
+
+section param
+variable {α P : Type} [CommRing α] [Amp α P]
+
+theorem cq_param_rx (θ : P) : (CQ1.mRx θ : LMat α) = Spec.specMatrix (.RX θ) := rx_line θ
+theorem cq_param_ry (h : LawfulAmp α P) (θ : P) : (CQ1.mRy θ : LMat α) = Spec.specMatrix (.RY θ) := ry_line h θ
+theorem cq_param_rz (θ : P) : (CQ1.mRz θ : LMat α) = Spec.specMatrix (.RZ θ) := rz_line θ
+
+theorem cq_param_u1 (h : LawfulAmp α P) (hh : Proofs.Unitaries.LawfulHalf α P) (l : P) :
+    (CQ1.mRz l : LMat α) =
+      CQ1.scale (Amp.cos (Amp.phalf α l) - Amp.I P * Amp.sin (Amp.phalf α l)) (Spec.specMatrix (.U1 l)) :=
+  u1_as_rz h hh l
+
+theorem cq_param_cu1 (l : P) :
+    (CQ1.mCPhase (Amp.cos l + Amp.I P * Amp.sin l) : LMat α) = Spec.specMatrix (.C (.U1 l)) := cu1_as_cr l
+
+/-- `CRY(θ) ↦ cnot; ry t, −θ/2; cnot; ry t, θ/2`: control 1 gives `RY(θ)`, control 0 the identity (block level) -/
+theorem cq_param_cry_blocks_partial (h : LawfulAmp α P) (hh : Proofs.Unitaries.LawfulHalf α P)
+    (hn : LawfulNegHalf α P) (θ : P) :
+    LMat.mul (CQ1.mRy (Amp.phalf α θ)) (LMat.mul CQ1.mX (LMat.mul (CQ1.mRy (Amp.pneg α (Amp.phalf α θ))) CQ1.mX)) =
+      (Spec.specMatrix (.RY θ) : LMat α) ∧
+    LMat.mul (CQ1.mRy (Amp.phalf α θ)) (CQ1.mRy (Amp.pneg α (Amp.phalf α θ))) = (CQ1.mI : LMat α) :=
+  ⟨(cry_block_on h hh hn θ).trans (ry_line h θ), cry_block_off h hn θ⟩
+
+/-- `CRX(θ)`: the `CRY` template between `s t` and `sdag t`; `S†·RY(θ)·S = RX(θ)`, `S†·S = 1` (block level) -/
+theorem cq_param_crx_blocks_partial (h : LawfulAmp α P) (θ : P) :
+    LMat.mul (CQ1.mSdag (P := P)) (LMat.mul (CQ1.mRy θ) (CQ1.mS (P := P))) = (Spec.specMatrix (.RX θ) : LMat α) ∧
+    LMat.mul (CQ1.mSdag (P := P)) (CQ1.mS (P := P)) = (CQ1.mI : LMat α) :=
+  ⟨(crx_conjugation h θ).trans (rx_line θ), crx_block_off h⟩
+
+/-- NEGATIVE (all angles): on the block where both controls are 1 the `CCRZ` template `cr(λ/2); cnot; cr(−λ/2); cnot;
+cr(λ/2)` is `U1(λ) = diag(1, e^{iλ})`, while the gate is `RZ(λ) = diag(e^{-iλ/2}, e^{iλ/2})`; all other blocks are the
+identity in both, so the two differ by a phase relative to the rest of the register. -/
+theorem neg_ccrz_block_is_u1 (h : LawfulAmp α P) (hh : Proofs.Unitaries.LawfulHalf α P) (l : P) :
+    let e : α := Amp.cos (Amp.phalf α l) + Amp.I P * Amp.sin (Amp.phalf α l)
+    ([[1, 0], [0, e * e]] : LMat α) = Spec.specMatrix (.U1 l) := ccrz_block_is_u1 h hh l
+
+end param
+
 /-! ## Non-vacuity: circuits on which the whole property holds (exactly, over ℚ(ζ₈)) -/
 
 /-- Bell pair, measurement, classically controlled X, measurement -/
